@@ -40,6 +40,24 @@ File layouts, star chains across package levels, the target's path, cycles throu
     an absolute target path.  Dedicated rows (`cycle_rows`) compare call-backs into target functions / static methods
     exactly, under four spellings.
 
+One definition per file, symbolic links (round 4):
+  * the defining module of a moved callee is NAMED AFTER the callee with probability 1/4, under every import form
+    (`pkg/f3.py: def f3`, `zp1/K0.py: class K0`): `from pkg import f3`, `pkg.f3()`, `alias.f3()` through an `__init__` that
+    re-exports it (explicitly, by star, by an absolute import of its own submodule: forms `reexport-init-abs`,
+    `import-pkg-attr-as` are new), through chains and star chains — the dotted name the CALL denotes is then also a
+    module name (`called_name_is_also_a_module`, computed from the module table; signature suffix
+    `:called-name-is-also-a-submodule`).  In the star-chain layouts the same-named decoy one package level up then IS a
+    submodule carrying the called name while the package attribute comes from elsewhere (`called_name_is_also_another_
+    module_file`): Python binds the package attribute.  Dedicated rows `member_rows` compare the three spellings x
+    function / class / static method x re-export style exactly with the single-file program;
+  * 35 % of the projects reach one or two package DIRECTORIES / module FILES of the followed part through SYMBOLIC LINKS
+    (`Split.add_links`: the import statements name the link, the files lie elsewhere below the project; links inside
+    links; preferred above a module that holds a local call, i.e. caller and callee moved together).  CPython is the
+    oracle as before (`__file__` through the link); the locator stage gets the logical view (links followed).  Dedicated
+    rows `link_rows` (linked package directory, linked module file, linked directory inside a real package; helpers of
+    the linked module itself — function, class, static method — and of sibling modules by relative, relative-level-2 and
+    absolute import) are compared exactly.  Lean: `RattrModel/LinkedLocal.lean`, Props/C06 "Round 4".
+
 Self-checks (internal errors, never violations): CPython itself imports every split project and must bind
 each spelled callee to the moved definition; the Lean spec `Spec.ImportEquiv.expected` must agree with
 CPython.  Correspondence (Tie B): for each cross-module call, the Lean model (`callTargetFor` +
@@ -110,10 +128,15 @@ FORMS = {
     # the star chain starts in the importing module itself (target or followed module):
     # importer: from pkg import *  /  pkg/__init__: from .x import *  /  pkg/x.py: def k  [decoy x.py next to the importer]
     "star-of-init-star":        dict(pkg=False, style="name"),
+    # ---- round 4: the package is bound to an ALIAS (`import pkg as p; p.k()`, k re-exported by pkg/__init__), and the
+    #      re-export in the __init__ is written as an ABSOLUTE import of the package's own submodule
+    "import-pkg-attr-as":       dict(pkg=False, style="prefix"),
+    "reexport-init-abs":        dict(pkg=False, style="name"),
 }
 # forms added in round 3: fewer repetitions per (form, kind) cell — they share every mechanism but the file layout
 LAYOUT_FORMS = ("reexport-star-pkg2", "reexport-star-pkg3", "reexport-star-pkg2-named", "reexport-star-pkg2-up",
-                "star-of-init-star")
+                "star-of-init-star", "import-pkg-attr-as", "reexport-init-abs")
+ROUND4_FORMS = ("import-pkg-attr-as", "reexport-init-abs")
 # how a module of a followed module reaches a function that STAYS in the target (import cycle through the target)
 BACK_FORMS = ("back-import", "back-from", "back-relative-from", "back-relative-module")
 KINDS = ("func", "class", "static")
@@ -220,16 +243,23 @@ class Edge:
         self.form, self.kind, self.spelled = form, kind, spelled
         self.depth, self.chain, self.qualname = depth, chain, qualname
         self.hops = list(hops)            # the re-exporting modules between importer and module
+        self.member = False               # the defining module's last component is the callee's own name (pkg/f.py: def f)
+        self.amb = False                  # the dotted name the CALL denotes (binding module + callee) is ALSO a module name
+        self.amb_other = False            # … the name of a module file that is NOT the defining module (Python never imports it)
 
     def meta(self):
         return {"caller": self.u, "callee": self.v, "importer": self.importer, "module": self.module, "form": self.form,
-                "kind": self.kind, "spelled": self.spelled, "depth": self.depth, "chain": self.chain, "hops": self.hops}
+                "kind": self.kind, "spelled": self.spelled, "depth": self.depth, "chain": self.chain, "hops": self.hops,
+                "submodule_named_after_member": self.member, "called_name_is_also_a_module": self.amb,
+                "called_name_is_also_another_module_file": self.amb_other}
 
 
 class Split:
-    def __init__(self, rng, ents, order, layout, want, back_p=0.0):
+    def __init__(self, rng, ents, order, layout, want, back_p=0.0, member_p=0.0):
         self.rng, self.ents, self.order = rng, ents, order
         self.back_p = back_p              # probability that the project has an import cycle through the target
+        self.member_p = member_p          # probability that a moved callee's module is NAMED AFTER the callee (pkg/f.py: def f)
+        self.links = {}                   # logical path of a symbolic link (relative to the project) -> relative path it denotes
         self.target_mod = {"root": "target", "pkg": "tp.target", "pkg2": "tp.tq.target"}[layout]
         self.want = want                  # list of (form, kind) still to be covered (mutated)
         self.n = 0
@@ -255,8 +285,8 @@ class Split:
             self.modules.setdefault(".".join(parts[:i]), {"pkg": True, "imports": [], "defs": []})
         return self.modules.setdefault(mod, {"pkg": pkg, "imports": [], "defs": []})
 
-    def new_mod(self, depth):
-        parts = [self.fresh("zp") for _ in range(depth - 1)] + [self.fresh("zm")]
+    def new_mod(self, depth, leaf=None):
+        parts = [self.fresh("zp") for _ in range(depth - 1)] + [leaf or self.fresh("zm")]
         mod = ".".join(parts)
         self.ensure(mod, False)
         return mod
@@ -294,36 +324,43 @@ class Split:
         r = self.rng
         chain = 0
         via = []
+        # the defining module is NAMED AFTER the callee (one definition per file: pkg/slugify.py defines slugify)
+        leaf = k if (self.member_p and r.random() < self.member_p) else None
+        if leaf and e.kind == "static" and FORMS[form]["style"] == "prefix" and not form.startswith("import-pkg-attr"):
+            # `import H; H.H.sm()`: the module's name occurs inside the callee's dotted name — the class of the dedicated
+            # row `module-name-inside-callee-name` (known finding), kept out of the random projects
+            leaf = None
+        bound = None        # the module the importer's statement names as the holder of k (default: the defining module)
         if form == "import":
-            mod = self.new_mod(1)
+            mod = self.new_mod(1, leaf)
             self.imp(importer, f"import {mod}", {"k": "plain", "module": mod})
             prefix = mod
         elif form == "import-dotted":
-            mod = self.new_mod(r.choice([2, 3]))
+            mod = self.new_mod(r.choice([2, 3]), leaf)
             self.imp(importer, f"import {mod}", {"k": "plain", "module": mod})
             prefix = mod
         elif form == "import-dotted+parent":
-            mod = self.new_mod(r.choice([2, 3]))
+            mod = self.new_mod(r.choice([2, 3]), leaf)
             top = mod.split(".")[0]
             self.imp(importer, f"import {top}", {"k": "plain", "module": top})
             self.imp(importer, f"import {mod}", {"k": "plain", "module": mod})
             prefix = mod
         elif form == "import-as":
-            mod = self.new_mod(r.choice([1, 2, 3]))
+            mod = self.new_mod(r.choice([1, 2, 3]), leaf)
             a = self.fresh("za")
             self.imp(importer, f"import {mod} as {a}", {"k": "plain", "module": mod, "asname": a})
             prefix = a
         elif form == "from":
-            mod = self.new_mod(r.choice([1, 2, 3]))
+            mod = self.new_mod(r.choice([1, 2, 3]), leaf)
             self.imp(importer, f"from {mod} import {k}", {"k": "from", "module": mod, "name": k})
             prefix = None
         elif form == "from-as":
-            mod = self.new_mod(r.choice([1, 2, 3]))
+            mod = self.new_mod(r.choice([1, 2, 3]), leaf)
             a = self.fresh("zg")
             self.imp(importer, f"from {mod} import {k} as {a}", {"k": "from", "module": mod, "name": k, "asname": a})
             prefix = ("alias", a)
         elif form in ("from-parent", "from-parent-as"):
-            mod = self.new_mod(r.choice([2, 3]))
+            mod = self.new_mod(r.choice([2, 3]), leaf)
             parent, last = mod.rsplit(".", 1)
             if form == "from-parent":
                 self.imp(importer, f"from {parent} import {last}", {"k": "from", "module": parent, "name": last})
@@ -337,7 +374,7 @@ class Split:
             level = 2 if form == "relative-from-2" else 1
             pkg_parts = importer.split(".")[:-1]
             base = pkg_parts[:len(pkg_parts) - (level - 1)]
-            last = self.fresh("zm")
+            last = leaf or self.fresh("zm")
             mod = ".".join(base + [last])
             self.ensure(mod, False)
             dots = "." * level
@@ -353,38 +390,48 @@ class Split:
             self.ensure(pkg, True)
             sub = f"{pkg}.{self.fresh('zq')}"
             self.ensure(sub, True)
-            last = self.fresh("zx")
+            last = leaf or self.fresh("zx")
             mod = f"{pkg}.{last}"
             self.ensure(mod, False)
             via = [sub]
+            bound = sub
             self.imp(sub, f"from ..{last} import {k}", {"k": "rel", "level": 2, "module": last, "name": k})
             self.imp(importer, f"from {sub} import {k}", {"k": "from", "module": sub, "name": k})
             prefix = None
         elif form in ("reexport-init", "reexport-chain2", "reexport-chain3", "reexport-star", "reexport-star-chain2",
-                      "import-pkg-attr"):
+                      "import-pkg-attr", "import-pkg-attr-as", "reexport-init-abs"):
             chain = {"reexport-chain2": 2, "reexport-chain3": 3, "reexport-star-chain2": 2}.get(form, 1)
             pkg = self.fresh("zr")
             self.ensure(pkg, True)
             hops = [pkg] + [f"{pkg}.{self.fresh('zy')}" for _ in range(chain - 1)]
-            mod = f"{pkg}.{self.fresh('zx')}"
+            mod = f"{pkg}.{leaf or self.fresh('zx')}"
             self.ensure(mod, False)
             via = list(hops)
+            bound = pkg
             for i, h in enumerate(hops):
                 self.ensure(h, i == 0)
                 nxt = (hops[i + 1] if i + 1 < len(hops) else mod).rsplit(".", 1)[1]
                 if form in ("reexport-star", "reexport-star-chain2") and i == 0:
                     self.imp(h, f"from .{nxt} import *", {"k": "relstar", "level": 1, "module": nxt})
+                elif form == "reexport-init-abs":
+                    # the package's __init__ names its own submodule absolutely
+                    self.imp(h, f"from {pkg}.{nxt} import {k}", {"k": "from", "module": f"{pkg}.{nxt}", "name": k})
                 else:
                     self.imp(h, f"from .{nxt} import {k}", {"k": "rel", "level": 1, "module": nxt, "name": k})
             if form == "import-pkg-attr":
                 self.imp(importer, f"import {pkg}", {"k": "plain", "module": pkg})
                 prefix = pkg
+            elif form == "import-pkg-attr-as":
+                a = self.fresh("za")
+                self.imp(importer, f"import {pkg} as {a}", {"k": "plain", "module": pkg, "asname": a})
+                prefix = a
             else:
                 self.imp(importer, f"from {pkg} import {k}", {"k": "from", "module": pkg, "name": k})
                 prefix = None
         elif form in ("reexport-star-pkg2", "reexport-star-pkg2-named", "reexport-star-pkg3", "reexport-star-pkg2-up"):
             pkg = self.fresh("zr")
-            x = self.fresh("zx")
+            x = leaf or self.fresh("zx")
+            bound = pkg
             if form == "reexport-star-pkg3":
                 s1 = f"{pkg}.{self.fresh('zq')}"
                 s2 = f"{s1}.{self.fresh('zq')}"
@@ -417,7 +464,8 @@ class Split:
             chain = 1
             pkg = self.fresh("zr")
             self.ensure(pkg, True)
-            x = self.fresh("zx")
+            x = leaf or self.fresh("zx")
+            bound = pkg
             mod = f"{pkg}.{x}"
             self.ensure(mod, False)
             via = [pkg]
@@ -430,7 +478,7 @@ class Split:
         elif form == "pkg-submodule-imported":
             pkg = self.fresh("zr")
             self.ensure(pkg, True)
-            last = self.fresh("zs")
+            last = leaf or self.fresh("zs")
             mod = f"{pkg}.{last}"
             self.ensure(mod, False)
             via = [pkg]
@@ -447,7 +495,10 @@ class Split:
             spelled = f"{prefix}.{e.spelled}"
         self.loc[v] = mod
         self.modules[mod]["defs"].append(v)
-        self.edges.append(Edge(e.caller, v, importer, mod, form, e.kind, spelled, mod.count(".") + 1, chain, e.spelled, via))
+        ed = Edge(e.caller, v, importer, mod, form, e.kind, spelled, mod.count(".") + 1, chain, e.spelled, via)
+        ed.member = mod.rsplit(".", 1)[-1] == k
+        ed.bound = bound or mod
+        self.edges.append(ed)
 
     def build(self):
         ents, r = self.ents, self.rng
@@ -491,6 +542,14 @@ class Split:
         for n in self.order:
             if n in stay:
                 self.place_back(n)
+        # the dotted name a call denotes — the module the importer's statement names + the callee as spelled locally — is ALSO
+        # the name of a module of the project (`from pkg import f` / `pkg.f()` next to pkg/f.py)
+        for ed in self.edges:
+            called = f"{getattr(ed, 'bound', ed.module)}.{ed.qualname}"
+            ed.amb = called in self.modules
+            # … or of a same-named module FILE that is not the defining module: `from pkg import f`, pkg/__init__ takes f
+            # from elsewhere (`from .sub import *`), and a file pkg/f.py exists too (Python: the package attribute wins)
+            ed.amb_other = called != ed.module and (called in self.decoys or called in self.modules)
         return self
 
     def place_back(self, w):
@@ -612,6 +671,44 @@ class Split:
         self.layout_tags.append("module-next-to-plain-directory")
         return self
 
+    def add_links(self, rng):
+        """One or two package DIRECTORIES / module FILES of the followed part of the project become SYMBOLIC LINKS: the
+        project's import statements keep naming the link (`textlib`), the files really lie elsewhere below the project
+        (`zlk1/textlib_v2/…`, importable under that name too, never imported).  Python imports through the link and
+        binds everything exactly as before (checked by CPython itself, `__file__` = the path through the link).
+        Preferred: links above (or at) a module that holds a LOCAL call (caller and callee moved together)."""
+        tparts = self.target_mod.split(".")
+        on_target_path = lambda mod: tparts[:mod.count(".") + 1] == mod.split(".")
+        local = {self.loc[c] for c, e in self.ents.items() if e.caller is not None and c in self.loc
+                 and self.loc.get(e.caller) == self.loc[c] and self.loc[c] != self.target_mod}
+        dirs = [mod for mod, m in self.modules.items() if m["pkg"] and not on_target_path(mod)]
+        mods = [mod for mod, m in self.modules.items() if not m["pkg"] and mod != self.target_mod and (m["defs"] or m["imports"])]
+        hot = [("dir", d) for d in dirs if any(l == d or l.startswith(d + ".") for l in local)] + \
+              [("file", f) for f in mods if f in local]
+        cold = [("dir", d) for d in dirs] + [("file", f) for f in mods]
+        for _ in range(rng.choice([1, 1, 2])):
+            pool = hot if (hot and rng.random() < 0.7) else cold
+            pool = [c for c in pool if (c[1].replace(".", "/") + (".py" if c[0] == "file" else "")) not in self.links]
+            if not pool:
+                break
+            what, mod = rng.choice(pool)
+            n = len(self.links) + 1
+            leaf = mod.rsplit(".", 1)[-1]
+            if what == "dir":
+                link = mod.replace(".", "/")
+                dest = rng.choice([f"zlk{n}/{leaf}_v2", f"zlk{n}", f"zlk{n}/zdeep/{leaf}"])
+            else:
+                link = mod.replace(".", "/") + ".py"
+                parent = link.rsplit("/", 1)[0] + "/" if "/" in link else ""
+                dest = rng.choice([f"zlk{n}/{leaf}_impl.py", f"zlk{n}/{leaf}.py", f"{parent}{leaf}_impl.py"])
+            self.links[link] = dest
+            self.layout_tags.append("symbolic-link:" + ("package-directory" if what == "dir" else "module-file"))
+        return self
+
+    def linked(self, mod):
+        """the file of module `mod` is reached through a symbolic link"""
+        return physical(self.path_of(mod), self.links) != self.path_of(mod)
+
     def hidden_reached_by(self):
         """how import statements of the project name the module that has a plain directory next to it"""
         kinds = set()
@@ -712,6 +809,7 @@ class Split:
         self.decoys = {rn(k): v for k, v in self.decoys.items()}
         self.stale = {rn(k): v for k, v in self.stale.items()}
         self.hidden = {rn(k): v for k, v in self.hidden.items()}
+        self.links = {rn(k): rn(v) for k, v in self.links.items()}
         for ed in self.edges:
             ed.importer, ed.module, ed.spelled = rn(ed.importer), rn(ed.module), rn(ed.spelled)
             ed.hops = [rn(h) for h in ed.hops]
@@ -892,6 +990,101 @@ def cycle_rows(rng, i):
     return rows
 
 
+def link_rows(rng, i):
+    """A followed module that is reached THROUGH A SYMBOLIC LINK (a linked package directory, a linked module file, a
+    linked directory inside a real package) and whose followed function calls helpers of ITS OWN module (function, class
+    with initialiser, static method) and of sibling modules (relative import, relative level 2 through the link, absolute
+    import by the link's name).  Python binds every call as if the link were a plain directory / file; the single-file
+    version holds all definitions.  -> dicts(label, kind, files (logical paths), links, single, exact)"""
+    par = rng.choice(["doc", "item", f"v{i}"])
+    L, V = f"textlib{i}", f"zlv{i}"
+    own = (f"class Kn{i}:\n    def __init__(self, {par}):\n        self.made = {par}.kn_attr\n\n"
+           f"class Hn{i}:\n    @staticmethod\n    def sm({par}):\n        return {par}.hn_attr\n\n"
+           f"def norm{i}({par}):\n    {par}.normalised = True\n    return {par}.text\n\n")
+    strip = f"def strip{i}(d):\n    return d.raw\n"
+    tidy = f"def tidy{i}(t):\n    del t.scratch\n    return t.tidied\n"
+
+    def users(calls):
+        return (f"def clean{i}({par}):\n    Hn{i}.sm({par})\n    return " + " + ".join(f"{c}({par})" for c in calls) + "\n\n"
+                f"def build{i}({par}):\n    return Kn{i}({par})\n")
+
+    def target(mod):
+        return (f"from {mod} import clean{i}, build{i}\nimport {mod} as tc\n\n"
+                f"def t_from{i}(a):\n    return clean{i}(a)\n\ndef t_module{i}(a):\n    return tc.clean{i}(a)\n\n"
+                f"def t_class{i}(a):\n    return build{i}(a)\n")
+
+    def single(extra, calls):
+        return (extra + "\n" + own + users(calls) + "\n"
+                f"def t_from{i}(a):\n    return clean{i}(a)\n\ndef t_module{i}(a):\n    return clean{i}(a)\n\n"
+                f"def t_class{i}(a):\n    return build{i}(a)\n")
+
+    exact = [(f"t_from{i}", "from-import-of-the-linked-module"), (f"t_module{i}", "module-alias-of-the-linked-module"),
+             (f"t_class{i}", "class-of-the-linked-module")]
+    rows = []
+    # (1) the whole package directory is a link; siblings by relative import and by the link's own (absolute) name
+    calls = [f"strip{i}", f"norm{i}", f"tidy{i}"]
+    rows.append({"label": "package-directory-is-a-symbolic-link", "kind": "func",
+                 "files": {"target.py": target(f"{L}.core"), f"{L}/__init__.py": "",
+                           f"{L}/core.py": f"from .helpers import strip{i}\nfrom {L}.other import tidy{i}\n\n" + own + users(calls),
+                           f"{L}/helpers.py": strip, f"{L}/other.py": tidy},
+                 "links": {L: f"{V}/{L}_v2"},
+                 "single": single(strip + "\n" + tidy, calls), "exact": exact, "call_prefixes": ["tc."]})
+    # (2) one top-level module FILE is a link
+    calls = [f"strip{i}", f"norm{i}"]
+    rows.append({"label": "module-file-is-a-symbolic-link", "kind": "func",
+                 "files": {"target.py": target(f"zcore{i}"),
+                           f"zcore{i}.py": f"from zhelp{i} import strip{i}\n\n" + own + users(calls),
+                           f"zhelp{i}.py": strip},
+                 "links": {f"zcore{i}.py": f"{V}/zcore{i}_impl.py"},
+                 "single": single(strip, calls), "exact": exact, "call_prefixes": ["tc."]})
+    # (3) a linked directory INSIDE a real package; the module's relative import goes up through the link
+    rows.append({"label": "subpackage-directory-is-a-symbolic-link", "kind": "func",
+                 "files": {"target.py": target(f"zpk{i}.sub.core"), f"zpk{i}/__init__.py": "", f"zpk{i}/base.py": strip,
+                           f"zpk{i}/sub/__init__.py": "",
+                           f"zpk{i}/sub/core.py": f"from ..base import strip{i}\n\n" + own + users(calls)},
+                 "links": {f"zpk{i}/sub": f"{V}/sub_v1"},
+                 "single": single(strip, calls), "exact": exact, "call_prefixes": ["tc."]})
+    return rows
+
+
+def member_rows(rng, i):
+    """One definition per file: the package `__init__` re-exports a function / class / static-method holder from a submodule
+    NAMED AFTER IT (`pkg/slugify.py: def slugify`), reached as `from pkg import slugify`, `import pkg; pkg.slugify()`,
+    `import pkg as p; p.slugify()`; control: a re-export whose submodule has another name.
+    -> dicts(label, kind, files, single, exact, drop_gets)"""
+    P = f"textutils{i}"
+    f, K, H = rng.choice(["slugify", "render", f"do{i}"]), f"Shape{i}", f"Tool{i}"
+    F = f"def {f}(s):\n    s.slug = s.title\n    return s.slug_cache\n"
+    KS = f"class {K}:\n    def __init__(self, a):\n        self.kf = a.kw\n"
+    HS = f"class {H}:\n    @staticmethod\n    def sm(z):\n        return z.hs\n"
+    C = "def shorten(s):\n    return s.body\n"
+    callers = [("t_from", f"{f}(a)", "function-from-package"), ("t_package", f"{P}.{f}(a)", "function-package-attribute"),
+               ("t_alias", f"pa.{f}(a)", "function-package-alias-attribute"),
+               ("k_from", f"{K}(a)", "class-from-package"), ("k_package", f"{P}.{K}(a)", "class-package-attribute"),
+               ("k_alias", f"pa.{K}(a)", "class-package-alias-attribute"),
+               ("h_package", f"{P}.{H}.sm(a)", "static-method-package-attribute"),
+               ("h_alias", f"pa.{H}.sm(a)", "static-method-package-alias-attribute"),
+               ("t_control", "shorten(a)", "control-submodule-has-another-name")]
+    target = f"from {P} import {f}, {K}, shorten\nimport {P}\nimport {P} as pa\n\n" + \
+             "\n".join(f"def {n}{i}(a):\n    return {c}\n" for n, c, _ in callers)
+    single = F + "\n" + KS + "\n" + HS + "\n" + C + "\n" + \
+             "\n".join(f"def {n}{i}(a):\n    return {c.replace(P + '.', '').replace('pa.', '')}\n" for n, c, _ in callers)
+    inits = {"explicit-relative": f"from .{f} import {f}\nfrom .{K} import {K}\nfrom .{H} import {H}\nfrom .truncate import shorten\n",
+             "star": f"from .{f} import *\nfrom .{K} import *\nfrom .{H} import *\nfrom .truncate import *\n",
+             "explicit-absolute": f"from {P}.{f} import {f}\nfrom {P}.{K} import {K}\nfrom {P}.{H} import {H}\nfrom {P}.truncate import shorten\n"}
+    rows = []
+    for style in ["explicit-relative", rng.choice(["star", "explicit-absolute"])]:
+        rows.append({"label": f"package-reexports-from-submodule-named-after-the-member:{style}", "kind": "func",
+                     "files": {"target.py": target, f"{P}/__init__.py": inits[style], f"{P}/{f}.py": F, f"{P}/{K}.py": KS,
+                               f"{P}/{H}.py": HS, f"{P}/truncate.py": C},
+                     "single": single, "drop_gets": [f"{P}.{H}", f"pa.{H}"], "call_prefixes": [f"{P}.", "pa."],
+                     # [interp] what the initialiser of an IMPORTED class sets is recorded differently from the local
+                     # version (known finding `…:class-instance-argument`, whatever the module is called): the class roles
+                     # are judged on the gets (the initialiser's reads of the argument) only
+                     "exact": [(f"{n}{i}", role) + ((("gets",),) if role.startswith("class-") else ()) for n, _, role in callers]})
+    return rows
+
+
 # ------------------------------------------------------------------ running
 
 # how the target file is named on the command line (the project directory is where the modules are found: it is the
@@ -907,7 +1100,8 @@ def spelled_target(project, target_rel, spelling):
     if spelling == "absolute":
         return str(project / target_rel), project, None
     if spelling == "dotdot":
-        tops = sorted(d.name for d in project.iterdir() if d.is_dir())
+        # (`link/..` is the parent of what the link denotes: never through a symbolic link)
+        tops = sorted(d.name for d in project.iterdir() if d.is_dir() and not d.is_symlink())
         if tops:
             return f"{tops[0]}/../{target_rel}", project, None
         return "./" + target_rel, project, None
@@ -956,10 +1150,11 @@ CPY = r"""
 import importlib, importlib.util, json, os, sys
 sys.path.insert(0, '.')
 out = []
-first, queries, names = json.loads(sys.argv[1])
+first, queries, names, keep_links = (json.loads(sys.argv[1]) + [False])[:4]
 here = os.path.realpath('.')
 def rel(f):
-    return None if f is None else os.path.relpath(os.path.realpath(f), here)
+    # keep_links: the path as Python spells it (through the project's symbolic links), made absolute only
+    return None if f is None else os.path.relpath(os.path.abspath(f) if keep_links else os.path.realpath(f), here)
 try:
     if first:
         importlib.import_module(first)
@@ -985,11 +1180,11 @@ print(json.dumps([out, specs]))
 """
 
 
-def run_cpython(project, queries, first=None, names=()):
+def run_cpython(project, queries, first=None, names=(), keep_links=False):
     """CPython's own binding of each spelled callee ([module, qualname, file of that module]) and the file
     `importlib.util.find_spec` gives for each module name; `first` is imported first (the target: an import cycle
     through it is entered there)."""
-    p = subprocess.run([sys.executable, "-c", CPY, json.dumps([first, queries, list(names)])], cwd=str(project),
+    p = subprocess.run([sys.executable, "-c", CPY, json.dumps([first, queries, list(names), bool(keep_links)])], cwd=str(project),
                        capture_output=True, text=True, timeout=60, env=dict(os.environ, PYTHONDONTWRITEBYTECODE="1"))
     try:
         return json.loads(p.stdout.strip().splitlines()[-1])
@@ -997,11 +1192,35 @@ def run_cpython(project, queries, first=None, names=()):
         return [[["!harness", (p.stderr or p.stdout)[-200:], None] for _ in queries], [None for _ in names]]
 
 
-def write_project(root, files):
+def physical(rel, links):
+    """Where the file named by the project-relative path `rel` really lies: every prefix that is a symbolic link is
+    replaced by what it denotes (link paths and what they denote are both LOGICAL paths: the longest prefix that is a
+    link decides, then the result is looked at again)."""
+    parts = rel.split("/")
+    for _ in range(32):
+        for k in range(len(parts), 0, -1):
+            pre = "/".join(parts[:k])
+            if pre in links:
+                parts = links[pre].split("/") + parts[k:]
+                break
+        else:
+            break
+    return "/".join(parts)
+
+
+def write_project(root, files, links=None):
+    """`links`: project-relative path of a symbolic link -> project-relative path it denotes (a directory or a file);
+    `files` name every file by its LOGICAL path (through the links)."""
+    links = links or {}
     for rel, content in files.items():
-        f = root / rel
+        f = root / physical(rel, links)
         f.parent.mkdir(parents=True, exist_ok=True)
         f.write_text(content)
+    for link, dest in links.items():
+        parent, _, name = link.rpartition("/")
+        lp = root / (physical(parent, links) if parent else "") / name
+        lp.parent.mkdir(parents=True, exist_ok=True)
+        os.symlink(os.path.relpath(root / physical(dest, links), lp.parent), lp)
 
 
 def module_path_gets(spelled):
@@ -1198,7 +1417,7 @@ def correspondence(project, target_rel, edges, user=(), probes=(), spelling="rel
     return rows, verdicts
 
 
-def locator_rows(project, target_rel, names):
+def locator_rows(project, target_rel, names, keep_links=False):
     """The REAL locator on the project's own module names: `find_module_name_and_spec(name)` ->
     [name, module name, origin relative to the project | None]; and the request for the Lean model of the locator
     (`Locator.findModuleNameAndSpec` over the project's files as the one search root) and for the independent spec of
@@ -1215,11 +1434,16 @@ def locator_rows(project, target_rel, names):
             rel = None
             if origin is not None:
                 try:
-                    rel = str(Path(origin).resolve().relative_to(root))
+                    # keep_links: the origin AS LOCATED (the path through the project's symbolic links)
+                    rel = str((Path(origin) if keep_links else Path(origin).resolve()).relative_to(root))
                 except ValueError:
                     rel = "<outside the project>"
             rows.append([name, mn, rel])
-    files = sorted(str(f.relative_to(root)) for f in root.rglob("*") if f.is_file())
+    if keep_links:
+        # the LOGICAL view below the search directory (what is_dir() / exists() see: links followed)
+        files = sorted(os.path.relpath(os.path.join(d, f), root) for d, _, fs in os.walk(root, followlinks=True) for f in fs)
+    else:
+        files = sorted(str(f.relative_to(root)) for f in root.rglob("*") if f.is_file())
     req = {"roots": [[f.split("/") for f in files]], "stdlib": [],
            "ops": [{"k": "find", "q": n.split(".")} for n in names]}
     return rows, req
@@ -1377,6 +1601,11 @@ def run(tier, seed, build):
                 "(real locator vs Lean model vs Lean spec vs CPython find_spec per module name) and `star_expand` (symbols the "
                 "real expand_starred_imports appends vs StarChain.expandFile); the pipeline2 stage runs 40 % of its projects "
                 "under an absolute target path. "
+                "Round 4: the defining module of a moved callee is named after the callee with probability 1/4 under every import "
+                "form (one definition per file; the called dotted name is then also a module name), two new forms (package bound "
+                "to an alias, __init__ re-exporting by an absolute import of its own submodule); 35 % of the projects reach one or "
+                "two package directories / module files of the followed part through symbolic links (links inside links, preferred "
+                "above a module that holds a local call); dedicated rows for both, compared exactly. "
                 "non-trivial = distinct (form, callee kind, module depth, chain length) of a judged cross-module call, "
                 "distinct (name-pattern relation, form) of a judged call, distinct same-name row x role")
     rng = random.Random(seed)
@@ -1391,7 +1620,9 @@ def run(tier, seed, build):
     per_cell = 5 if tier == "quick" else 30
     max_pairs = 230 if tier == "quick" else 900
     per_layout_cell = 2 if tier == "quick" else 12
-    want = [(f, k) for f in FORMS for k in KINDS for _ in range(per_layout_cell if f in LAYOUT_FORMS else per_cell)]
+    # (the two forms of round 4 are not forced into the coverage list: they are drawn at random and have dedicated rows)
+    want = [(f, k) for f in FORMS for k in KINDS if f not in ROUND4_FORMS
+            for _ in range(per_layout_cell if f in LAYOUT_FORMS else per_cell)]
     rng.shuffle(want)
     tmp = Path(tempfile.mkdtemp(prefix="c06-"))     # no excluded name anywhere in the path
     model = common.Model()
@@ -1404,11 +1635,13 @@ def run(tier, seed, build):
             layout = "pkg" if (needs_pkg or rng.random() < 0.25) else "root"
             if layout == "pkg" and (any(f == "relative-from-2" for f, _ in want) or rng.random() < 0.2):
                 layout = "pkg2"
-            sp = Split(rng, ents, order, layout, want, back_p=0.4).build()
+            sp = Split(rng, ents, order, layout, want, back_p=0.4, member_p=0.25).build()
             if rng.random() < 0.5:
                 sp.add_shadows(rng)
             if rng.random() < 0.3:
                 sp.add_stale_twins(rng)
+            if rng.random() < 0.35:
+                sp.add_links(rng)
             i = len(pairs)
             d1, d2, d3 = tmp / f"s{i}", tmp / f"p{i}", tmp / f"n{i}"
             target_rel = sp.target_mod.replace(".", "/") + ".py"
@@ -1419,10 +1652,12 @@ def run(tier, seed, build):
                 single_files["tp/tq/__init__.py"] = ""
             # ---- module naming and exclusion patterns (near-misses only: every module stays configured to be followed)
             neutral_files = sp.files()
+            neutral_links = dict(sp.links)
             mapping = nm.choose_renaming(rng, sp.all_module_names(), builtin) if rng.random() < 0.6 else {}
             sp.apply_renaming(mapping)
             files = sp.files()
             paths = [str(d / rel) for d in (d1, d2) for rel in list(files) + list(single_files)]
+            paths += [str(d2 / physical(rel, sp.links)) for rel in files if physical(rel, sp.links) != rel]
             pats = nm.choose_patterns(rng, sp.all_module_names(), paths, rng.randint(1, 3)) if rng.random() < 0.5 else []
             user = [x for _, x in pats]
             via_toml = bool(user) and rng.random() < 0.3
@@ -1438,14 +1673,16 @@ def run(tier, seed, build):
                 files = {**files, "pyproject.toml": toml_for(user)}
                 single_files = {**single_files, "pyproject.toml": toml_for(user)}
             write_project(d1, single_files)
-            write_project(d2, files)
+            write_project(d2, files, sp.links)
             twin = bool(mapping or user)
             if twin:
-                write_project(d3, neutral_files)
+                # (the twin keeps the symbolic links: it differs in the module names and the user patterns only)
+                write_project(d3, neutral_files, neutral_links)
             pairs.append({"i": i, "single": d1, "split": d2, "target": target_rel, "sp": sp, "ents": ents, "order": order,
                           "files": files, "single_src": single_files[target_rel], "user": user, "pattern_kinds": [k for k, _ in pats],
                           "flags": [] if via_toml else user, "via_toml": via_toml, "mapping": mapping,
-                          "twin": d3 if twin else None, "neutral_files": neutral_files, "spelling": spelling})
+                          "twin": d3 if twin else None, "neutral_files": neutral_files, "neutral_links": neutral_links,
+                          "spelling": spelling})
         # ---- dedicated split projects: ONE module of the project has a plain directory of its name (no __init__.py) next
         #      to it — Python imports the module file
         n_hidden = 4 if tier == "quick" else 16
@@ -1484,6 +1721,18 @@ def run(tier, seed, build):
                 write_project(d1, {"target.py": row["single"]})
                 ded.append({"i": i, "label": row["label"], "form": "from", "kind": row["kind"], "files": row["files"], "single": d1,
                             "single_src": row["single"], "split": d2, "caller": None, "pyvalid": True, "exact": row["exact"]})
+            # round 4: followed modules behind symbolic links; submodules named after the member they define
+            for fam, row in ([("followed-module-behind-symbolic-link-changes-answer", r) for r in link_rows(rng, j)]
+                             + [("submodule-named-after-member-changes-answer", r) for r in member_rows(rng, j)]
+                             if (j == 0 or tier != "quick") else []):
+                i = len(pairs) + len(ded)
+                d1, d2 = tmp / f"s{i}", tmp / f"p{i}"
+                write_project(d2, row["files"], row.get("links"))
+                write_project(d1, {"target.py": row["single"]})
+                ded.append({"i": i, "label": row["label"], "form": "from", "kind": row["kind"], "files": row["files"], "single": d1,
+                            "single_src": row["single"], "split": d2, "caller": None, "pyvalid": True, "exact": row["exact"],
+                            "links": row.get("links"), "drop_gets": row.get("drop_gets", []), "sig_family": fam,
+                            "call_prefixes": row.get("call_prefixes", [])})
             # import cycles through the target with a call back into it x how the target is named
             for row in (cycle_rows(rng, j) if (j == 0 or tier != "quick") else []):
                 for spelling in ("relative", "absolute", "absolute-other-cwd", "dot-slash"):
@@ -1514,7 +1763,8 @@ def run(tier, seed, build):
         with ThreadPoolExecutor(max_workers=16) as ex:
             outs = list(ex.map(lambda j: run_cli(*j), jobs))
             cpy = list(ex.map(lambda p: run_cpython(p["split"], [[e.importer, e.spelled] for e in p["sp"].edges],
-                                                    p["sp"].target_mod, p["sp"].all_module_names()), pairs))
+                                                    p["sp"].target_mod, p["sp"].all_module_names(),
+                                                    keep_links=bool(p["sp"].links)), pairs))
         it = iter(outs)
 
         lap("cli-runs")
@@ -1554,6 +1804,8 @@ def run(tier, seed, build):
             forms = sorted({e.form for e in sp.edges})
             case = {"files": p["files"], "single": p["single_src"], "target": p["target"], "flags": p["flags"],
                     "spelling": p["spelling"], "edges": [e.meta() for e in sp.edges]}
+            if sp.links:
+                case["links"] = dict(sp.links)      # symbolic link (project-relative) -> what it denotes; `files` are logical paths
             res.count("config:" + ("no-user-pattern" if not p["user"] else "toml" if p["via_toml"] else "cli-F"))
             res.count("target-spelling:" + p["spelling"])
             for tag in sp.layout_tags:
@@ -1649,7 +1901,7 @@ def run(tier, seed, build):
                         res.count("verdict:" + sig)
                         res.violations.append({"signature": sig, "case": case, "function": fn, "patterns": p["user"],
                                                "builtin_patterns": builtin, "renaming": p["mapping"],
-                                               "neutral_files": p["neutral_files"],
+                                               "neutral_files": p["neutral_files"], "neutral_links": p.get("neutral_links") or {},
                                                "with_neutral_names_and_no_pattern": r3.get(fn), "as_given": r2n.get(fn)})
             for fn in sp.modules[sp.target_mod]["defs"]:
                 if ents[fn].kind != "func" or fn in twin_bad:
@@ -1681,6 +1933,9 @@ def run(tier, seed, build):
                             # a local call inside a followed module (caller and callee moved together)
                             res.count(f"local-callee-in-followed-module:{ents[c].kind}")
                             res.nontrivial.add(common.digest(["local", above.form, ents[c].kind]))
+                            if sp.links and sp.linked(sp.loc[c]):
+                                res.count(f"local-callee-in-followed-module:{ents[c].kind}:module-reached-through-symbolic-link")
+                                res.nontrivial.add(common.digest(["local-linked", above.form, ents[c].kind]))
                             if has_marks(ref, ents[c].marks) and not has_marks(got, ents[c].marks):
                                 failed_local.append((above, c))
                                 walk(c, True, above)
@@ -1694,6 +1949,13 @@ def run(tier, seed, build):
                             tag = nm.relation_tag([ed.module] + ed.hops, builtin, p["user"])
                             res.count("edge-naming:" + tag)
                             res.nontrivial.add(common.digest(["naming", tag, ed.form]))
+                            if ed.member:
+                                res.count(f"submodule-named-after-member:{ed.form}|{ed.kind}"
+                                          + ("|called-name-is-also-a-submodule" if ed.amb else ""))
+                                res.nontrivial.add(common.digest(["member", ed.form, ed.kind, ed.amb]))
+                            if sp.links and any(sp.linked(x) for x in [ed.module] + ed.hops):
+                                res.count("edge-into:module-reached-through-symbolic-link")
+                                res.nontrivial.add(common.digest(["linked", ed.form, ed.kind]))
                             if ed.module in sp.stale:
                                 res.count("edge-into:package-next-to-stale-module")
                                 res.nontrivial.add(common.digest(["stale-twin", ed.form, ed.kind, ed.depth]))
@@ -1714,12 +1976,23 @@ def run(tier, seed, build):
                 if failed:
                     for ed in failed:
                         sig = f"import-form-not-followed:{ed.form}:{ed.kind}"
+                        if ed.amb:
+                            # `from pkg import f` / `pkg.f()` next to a submodule pkg/f.py: the dotted name of the CALLED
+                            # function / class is also a module name (computed from the project's module table)
+                            sig += ":called-name-is-also-a-submodule"
+                        elif ed.amb_other:
+                            # … the name of a module FILE that is not the defining module (Python: the package attribute)
+                            sig += ":called-name-is-also-another-module-file"
                         # the accesses of a same-named definition in a file Python never imports appear instead
                         if any(h in sp.hidden for h in [ed.module] + ed.hops):
                             # the run went through, but the module that has a plain directory next to it was not located
                             sig = "module-next-to-plain-directory-not-imported:not-followed"
                         elif has_marks(got, {f"stale_{ed.v}"}):
                             sig = f"wrong-file-followed:stale-module-instead-of-package:{ed.kind}"
+                        elif has_marks(got, {f"decoy_{ed.v}"}) and ed.amb_other:
+                            # the decoy is the submodule whose dotted name is the CALLED name (`from pkg import f`: the package
+                            # attribute f comes from elsewhere, a file pkg/f.py exists as well)
+                            sig = f"wrong-file-followed:submodule-with-the-called-name-instead-of-the-package-attribute:{ed.kind}"
                         elif has_marks(got, {f"decoy_{ed.v}"}):
                             sig = f"wrong-file-followed:same-named-decoy-module:{ed.form}:{ed.kind}"
                         res.count("verdict:" + sig)
@@ -1728,6 +2001,8 @@ def run(tier, seed, build):
                 if failed_local:
                     for ed, c in failed_local:
                         sig = f"import-changes-answer:{ed.form}:local-{ents[c].kind}-callee-of-followed-{ed.kind}-lost"
+                        if sp.links and sp.linked(sp.loc[c]):
+                            sig += ":module-reached-through-symbolic-link"
                         if c in sp.shadows and has_marks(got, {f"shadow_{c}"}):
                             # the target defines a function / class of the same name and signature, and ITS accesses
                             # appear in place of the callee's
@@ -1762,11 +2037,15 @@ def run(tier, seed, build):
             res.count(f"dedicated:{p['label']}:{o2['outcome']}")
             case = {"files": p["files"], "single": p["single_src"], "label": p["label"], "target": p.get("target", "target.py"),
                     "spelling": p.get("spelling", "relative")}
+            if p.get("links"):
+                case["links"] = dict(p["links"])
             if o2["outcome"] != "ok":
                 exc = o2.get("exc", o2["outcome"].capitalize())
                 sig = (f"import-cycle-crash:{exc}" if p["label"] == "reexport-cycle" else f"import-form-crash:{p['form']}:{exc}")
                 if p.get("sig"):
                     sig = f"{p['sig']}:{exc}"
+                if p.get("sig_family"):
+                    sig = f"{p['sig_family']}:{p['label']}:run-fails:{exc}"
                 res.violations.append({"signature": sig, "case": case, "detail": o2})
                 continue
             if o1 is None:
@@ -1776,18 +2055,27 @@ def run(tier, seed, build):
                 continue
             if p.get("exact"):
                 # same-named definitions: every judged function's entry must equal the reference exactly
-                for fn, role in p["exact"]:
+                for fn, role, *keys in p["exact"]:
                     ref = {k: sorted(v) for k, v in o1["results"].get(fn, {}).items()}
                     got = {k: sorted(v) for k, v in o2["results"].get(fn, {}).items()}
                     if p.get("drop_gets") and "gets" in got:
                         got["gets"] = [g for g in got["gets"] if g not in p["drop_gets"]]
+                    if p.get("call_prefixes") and "calls" in got:
+                        # the callee spelling mapped back: `pkg.f()` / `alias.f()` -> `f()`
+                        got["calls"] = sorted(next((c[len(x):] for x in p["call_prefixes"] if c.startswith(x)), c) for c in got["calls"])
+                    if keys:
+                        # this role is judged on some parts of the entry only (stated with the row)
+                        ref = {k: v for k, v in ref.items() if k in keys[0]}
+                        got = {k: v for k, v in got.items() if k in keys[0]}
                     res.nontrivial.add(common.digest(["same-name", p["label"], role, p.get("spelling")]))
                     if ref and ref == got:
-                        res.count(f"dedicated:same-name:{p['label']}:{role}:same")
+                        res.count(f"dedicated:{'exact' if p.get('sig_family') else 'same-name'}:{p['label']}:{role}:same")
                         continue
                     sig = f"same-named-definition-confused:{p['label']}:{role}"
                     if p.get("sig"):
                         sig = p["sig"]
+                    if p.get("sig_family"):
+                        sig = f"{p['sig_family']}:{p['label']}:{role}"
                     res.count("verdict:" + sig)
                     res.violations.append({"signature": sig, "case": case, "function": fn, "reference": ref, "split": got})
                 continue
@@ -1811,7 +2099,7 @@ def run(tier, seed, build):
         loc_reqs, loc_metas = [], []
         for p, (_, specs) in zip(pairs, cpy):
             names = p["sp"].all_module_names()
-            rows, req = locator_rows(p["split"], p["target"], names)
+            rows, req = locator_rows(p["split"], p["target"], names, keep_links=bool(p["sp"].links))
             loc_reqs.append(("locator", req))
             loc_metas.append((p, rows, dict(zip(names, specs))))
         for (p, rows, cpy_spec), mo in zip(loc_metas, model.batch(loc_reqs)):
@@ -1847,7 +2135,7 @@ def run(tier, seed, build):
                     sig = f"followed-file-is-not-the-imported-file:{layout}:" + ("not-found" if rel is None else "other-file")
                     res.count("verdict:" + sig)
                     res.violations.append({"signature": sig, "case": {"files": p["files"], "target": p["target"], "flags": [],
-                                                                      "module": name},
+                                                                      "module": name, **({"links": dict(sp.links)} if sp.links else {})},
                                            "rattr_follows": rel, "python_imports": py_org})
 
         lap("locator")
@@ -2029,6 +2317,11 @@ def run(tier, seed, build):
         "full file path) is matched IN FULL by an exclusion pattern (Python re.fullmatch semantics, the documented meaning of "
         "-F PATTERN / exclude-imports and of the perennial patterns); such a module is followed exactly as if no pattern were "
         "given and as if it had any other name",
+        "[interp] a package directory or module file that is a symbolic link is the module Python imports under the LINK's name "
+        "(CPython's own binding is checked for every generated call); how the files are laid out on disk is not part of the answer",
+        "[interp] `from pkg import f` / `pkg.f()` with a package attribute f AND a submodule file pkg/f.py denotes the package "
+        "attribute (Python's rule; CPython's own binding is checked); dedicated member rows judge the class roles on the gets "
+        "only (what an imported class's initialiser sets differs by the known class-instance-argument finding)",
         "[interp] a function / class of a followed module that has the same name as a definition of the target (or of another "
         "followed module) is still that module's: every call binds as in Python, module-locally; the single-file reference has "
         "the clashing definitions renamed apart",
@@ -2044,7 +2337,7 @@ def replay(path):
     if files:
         tmp = Path(tempfile.mkdtemp(prefix="rattr-c06-replay-"))
         try:
-            write_project(tmp, files)
+            write_project(tmp, files, case.get("links"))
             print(json.dumps(run_cli(tmp, case.get("target", "target.py"), case.get("flags") or [],
                                      case.get("spelling") or "relative"), indent=1)[:4000])
         finally:
